@@ -248,11 +248,11 @@ def compare_gen(ctx, cases, results, texts, coll):
 def run(ctx):
     binary = ctx.build("vh-c36")
     coll = Collector()
-    runs = [{"PMax": 3, "TMax": 2, "Alpha": '"glob"'}, {"PMax": 3, "TMax": 1, "Alpha": '"bracket"'}]
+    runs = [{"PMax": 3, "TMax": 2, "Alpha": '"glob"'}, {"PMax": 3, "TMax": 1, "Alpha": '"bracket"'}, {"PMax": 3, "TMax": 3, "Alpha": '"deep"'}]
     if ctx.thorough:
         runs = [{"PMax": 4, "TMax": 2, "Alpha": '"glob"'}, {"PMax": 3, "TMax": 1, "Alpha": '"wide"'},
                 {"PMax": 2, "TMax": 2, "Alpha": '"wide"'}, {"PMax": 4, "TMax": 1, "Alpha": '"bracket"'},
-                {"PMax": 3, "TMax": 2, "Alpha": '"bracket"'}]
+                {"PMax": 3, "TMax": 2, "Alpha": '"bracket"'}, {"PMax": 4, "TMax": 3, "Alpha": '"deep"'}]
     audit_pairs = []
     total_pairs = 0
     for consts in runs:
